@@ -144,15 +144,45 @@ def run(tier):
 
 
 def replay(path):
+    """re-writes the recorded chunks, re-reads them with the recorded plans (over a stand-alone buffer and as a slice of a longer one) and
+    decides with the independent transcription of the documented chunked-reading model (dataharness.SpecReader)"""
     import json
     r = json.load(open(path))
+    inp = r.get('input')
+    if not inp or 'chunks' not in inp:
+        return replay_broken(r, 'C06')
     s = Scratch()
     wmod, rmod = load_leaf(s.src, 'eolib.data.eo_writer', 'eolib.data.eo_reader')
-    chunks = [[tuple(i) for i in c] for c in r['input']['chunks']]
-    data = write_chunks(wmod, chunks)
-    bad = data.count(0xFF) != len(chunks) - 1
-    if 'plans' in r['input']:
-        plans = [[tuple(o) for o in p] for p in r['input']['plans']]
-        print("outputs:", read_chunks(rmod, data, plans))
-    print("replay: data", data, "break count", "WRONG" if bad else "ok")
-    return 1 if bad else 0
+    chunks = [[tuple(i) for i in c] for c in inp['chunks']]
+    why = None
+    for pollute in (False, True):
+        data = write_chunks(wmod, chunks, pollute=pollute)
+        if data.count(0xFF) != len(chunks) - 1:
+            why = f"the written data {data} contains {data.count(0xFF)} break bytes for {len(chunks)} chunks"
+            break
+        for key in ('plans', 'alt'):
+            if key not in inp or why:
+                continue
+            plans = [[tuple(o) for o in p] for p in inp[key]]
+            for prefix in ([], [1, 2], [0xFF, 3, 0xFF]):
+                # one reader over prefix+data+junk; handle 1 = its slice covering exactly the data
+                whole = prefix + data + [0xFF, 7]
+                ops = [(0, ('slice', len(prefix), len(data))), (1, ('setchunked', True))]
+                for pl in plans:
+                    ops += [(1, op) for op in pl] + [(1, ('nextchunk',))]
+                w = reader_oracle(whole, ops, run_reader(rmod, whole, ops))
+                if w:
+                    why = w
+                    break
+            # the matching reads return what was written
+            outs = read_chunks(rmod, data, plans)
+            for k, (its, pl, o) in enumerate(zip(chunks, plans, outs)):
+                m = 0
+                while m < len(its) and m < len(pl) and tuple(pl[m]) == tuple(item_rop(its[m])):
+                    m += 1
+                if m == len(pl) or m == len(its):
+                    exp = [sanitised_expected(it) for it in its[:m]]
+                    if o[:m] != exp and not why:
+                        why = f"chunk #{k}: matching reads returned {o[:m]}, written {exp}"
+    print("replay:", why or "property holds on this input")
+    return 1 if why else 0
